@@ -14,10 +14,10 @@ import ast
 from . import canon
 
 
-def rename_locals(src: str, suffix: str = "__r", annotate: bool = True, params: bool = True) -> tuple[str, int]:
+def rename_locals(src: str, suffix: str = "__r", annotate: bool = True, kw_names=None) -> tuple[str, int]:
     tree = ast.parse(src)
     renamed = 0
-    kw_names = canon.keyword_names(tree)
+    params = kw_names is not None  # parameters only when the package-wide keyword names are known
     for _q, fn in list(canon.qualnames(tree)):
         own = canon.own_nodes(fn)
         # positional parameters of private functions that nobody passes by keyword
